@@ -16,23 +16,6 @@ EXPECT_OPS = (["u:" + o for o in ("neg abs signum floor ceil trunc round fract f
               + ["f:sum", "f:product"])
 
 
-def lane_replay(res, cases, cfgs, prop_filter=None, env_extra=None):
-    core.build_all(cfgs, ["lane"])
-    def one(cfg):
-        out = os.path.join(core.WORK, res.prop, f"lane.{cfg}.json")
-        p = core.run_bin(cfg, "lane", [cases, out], env_extra=env_extra)
-        if p.returncode != 0:
-            raise core.ToolError(f"lane replay crashed in {cfg}: rc={p.returncode}\n{p.stderr[-2000:]}")
-        core.log("  " + p.stdout.strip())
-        return cfg, out
-    with ThreadPoolExecutor(max_workers=8) as ex:
-        outs = list(ex.map(one, cfgs))
-    for cfg, out in outs:
-        r = res.add_report(out, cfg)
-        missing = [k for k in EXPECT_OPS if r["per_op"].get(k, 0) == 0]
-        if missing:
-            raise core.ToolError(f"vacuity guard: operations never exercised in {cfg}: {missing}")
-
 
 def run(res, only=None):
     cfgs = CFGS_QUICK if res.tier == "quick" else CFGS_THOROUGH
@@ -40,32 +23,16 @@ def run(res, only=None):
         cfgs = [c for c in cfgs if c in only]
     os.makedirs(os.path.join(core.WORK, res.prop), exist_ok=True)
     cases = os.path.join(core.WORK, res.prop, "cases.out")
-    st = core.run_tlc("MC_C01", res.tier, cases, workers=8)
-    res.add_tlc(st)
-    lane_replay(res, cases, cfgs)
+    res.add_tlc(core.run_tlc("MC_C01", res.tier, cases, workers=8))
+    core.replay_bin(res, "lane", cases, cfgs, expect_ops=EXPECT_OPS)
     res.rule = ("TLC enumerates call/return states over the lattice F1 (ties, 2^22..2^24, 2^31, 2^63, "
                 "subnormals, extremes, +-0, +-inf, NaN); one case = one operation on 4-lane operand vectors; "
                 "each is replayed in 4 lane rotations on 7 vector types through every spelling. "
-                "non-trivial = some operand lane other than 0/1.")
+                "non-trivial = some operand lane is a finite value other than +-1.")
     res.assumptions = ["harness projection fl.rs (bits <-> (sign, odd mantissa, exponent)) is exact (self-tested at start-up)",
                        "NEON/wasm32 sources cannot run here",
                        "lanes whose exact result needs more than 31-bit integers are not predicted (counted as skipped)"]
 
 
 def replay(res, path, only=None):
-    mm = json.load(open(path))
-    case = mm["case"]
-    os.makedirs(os.path.join(core.WORK, res.prop), exist_ok=True)
-    cases = os.path.join(core.WORK, res.prop, "replay.ndjson")
-    open(cases, "w").write(json.dumps(case) + "\n")
-    cfg = mm.get("cfg", "sse2")
-    core.build_all([cfg], ["lane"])
-    out = os.path.join(core.WORK, res.prop, f"replay.{cfg}.json")
-    p = core.run_bin(cfg, "lane", [cases, out], env_extra={"HX_ONLY_TY": mm["ty"]})
-    r = json.load(open(out))
-    print(json.dumps(r["mismatches"][:3], indent=1))
-    if r["mismatch_count"]:
-        print(f"VIOLATION property={res.prop} replay={path}")
-        return core.EXIT_VIOLATION
-    print("replay: no mismatch")
-    return core.EXIT_OK
+    return core.generic_replay(res, path, "lane")
